@@ -111,7 +111,15 @@ def run(chk):
     drv = wire.Driver()
     DRV[0] = drv
     rng = random.Random(chk.seed + 15)
-    for label, doc, g in graphs.pool(chk, 120, 1500):
+    import demes as _demes
+    extra = []
+    for i in range(12 if chk.tier == "quick" else 120):
+        d = gen.shared_defaults_family(rng)
+        try:
+            extra.append(("shared-defaults:%d" % i, d, _demes.Graph.fromdict(d)))
+        except Exception as e:
+            chk.count("family_rejected_" + type(e).__name__)
+    for label, doc, g in list(graphs.pool(chk, 120, 1500)) + extra:
         payload = gen.graph_payload(g)
         names = [d.name for d in g.demes]
         for nm in maps_for(rng, names, chk.tier == "thorough"):
